@@ -67,6 +67,14 @@ impl SimDir {
         std::fs::write(&p, bytes).expect("simdir: write");
         self.syscalls += 3;
     }
+    /// a file whose NAME is given as raw bytes (not necessarily UTF-8), directly below the root
+    pub fn create_raw(&mut self, name: &[u8], bytes: &[u8]) {
+        use std::os::unix::ffi::OsStrExt;
+        let p = self.root.join(std::ffi::OsStr::from_bytes(name));
+        let _ = std::fs::remove_file(&p);
+        std::fs::write(&p, bytes).expect("simdir: write raw name");
+        self.syscalls += 2;
+    }
     /// like `create`, but the directory entry is a symbolic link to a regular file kept outside the directory
     /// (a legal way to lay a directory out; whoever asks the entry for its type without following links sees
     /// "symlink", not "file")
